@@ -1056,6 +1056,609 @@ impl Model for IdleModel {
     }
 }
 
+// ---------------------------------------------------------------------------------------------
+// server side: SendResponse / RecvStream / SendStream of accepted streams live on the second thread
+
+#[derive(Clone, Debug, PartialEq)]
+pub enum SOp {
+    Respond(usize, bool),
+    SendData(usize, usize, bool),
+    SendReset(usize),
+    Push(usize),
+    ReadBody(usize),
+    DropBody(usize),
+    DropRespond(usize),
+    DropSend(usize),
+    Quit,
+}
+
+#[derive(Clone, Default, Debug)]
+pub struct SReqSnap {
+    pub sid: u32,
+    pub has_respond: bool,
+    pub has_send: bool,
+    pub has_body: bool,
+    pub accepted: Vec<u8>,
+    pub eos: bool,
+    pub reset: bool,
+    pub received: Vec<u8>,
+    pub recv_done: Option<String>,
+    pub pushes: usize,
+}
+
+#[derive(Clone, Default, Debug)]
+pub struct SSnap {
+    pub reqs: Vec<SReqSnap>,
+    pub last: String,
+    pub panics: Vec<String>,
+}
+
+struct SHReq {
+    respond: Option<h2::server::SendResponse<Bytes>>,
+    send: Option<SendStream<Bytes>>,
+    body: Option<RecvStream>,
+    snap: SReqSnap,
+}
+
+enum SMsg {
+    Adopt(u32, Option<h2::server::SendResponse<Bytes>>, Option<RecvStream>),
+    Do(SOp),
+}
+
+struct SHelper {
+    reqs: Vec<SHReq>,
+    seq: u8,
+    panics: Vec<String>,
+    flag: Arc<Flag>,
+}
+
+impl SHelper {
+    fn snap(&self, last: String) -> SSnap {
+        SSnap { reqs: self.reqs.iter().map(|r| r.snap.clone()).collect(), last, panics: self.panics.clone() }
+    }
+    fn exec(&mut self, op: &SOp) -> String {
+        let wk = waker_of(&self.flag);
+        let mut cx = Context::from_waker(&wk);
+        let mut panics = vec![];
+        let out: String = match op.clone() {
+            SOp::Respond(k, eos) => {
+                let Some(r) = self.reqs.get_mut(k) else { return "n/a".into() };
+                let Some(mut resp) = r.respond.take() else { return "n/a".into() };
+                r.snap.has_respond = false;
+                match guarded(&mut panics, "send_response", || resp.send_response(simple_response(200), eos)) {
+                    Some(Ok(ss)) => {
+                        if eos {
+                            r.snap.eos = true;
+                            safe_drop(&mut panics, "SendStream", Some(ss));
+                        } else {
+                            r.send = Some(ss);
+                            r.snap.has_send = true;
+                        }
+                        "responded".into()
+                    }
+                    Some(Err(e)) => format!("send_response: {}", crate::scen::err_text(&e)),
+                    None => "panic".into(),
+                }
+            }
+            SOp::SendData(k, n, eos) => {
+                let seq = self.seq;
+                let Some(r) = self.reqs.get_mut(k) else { return "n/a".into() };
+                let Some(ss) = r.send.as_mut() else { return "n/a".into() };
+                self.seq = self.seq.wrapping_add(1);
+                match guarded(&mut panics, "send_data", || ss.send_data(Bytes::from(vec![seq; n]), eos)) {
+                    Some(Ok(())) => {
+                        r.snap.accepted.extend(std::iter::repeat(seq).take(n));
+                        if eos {
+                            r.snap.eos = true;
+                        }
+                        "ok".into()
+                    }
+                    Some(Err(e)) => format!("send_data: {}", e),
+                    None => "panic".into(),
+                }
+            }
+            SOp::SendReset(k) => {
+                let Some(r) = self.reqs.get_mut(k) else { return "n/a".into() };
+                if let Some(ss) = r.send.as_mut() {
+                    guarded(&mut panics, "send_reset", || ss.send_reset(h2::Reason::CANCEL));
+                } else if let Some(resp) = r.respond.as_mut() {
+                    guarded(&mut panics, "send_reset", || resp.send_reset(h2::Reason::CANCEL));
+                } else {
+                    return "n/a".into();
+                }
+                r.snap.reset = true;
+                "reset".into()
+            }
+            SOp::Push(k) => {
+                let Some(r) = self.reqs.get_mut(k) else { return "n/a".into() };
+                let Some(resp) = r.respond.as_mut() else { return "n/a".into() };
+                r.snap.pushes += 1;
+                match guarded(&mut panics, "push_request", || resp.push_request(simple_request("/pushed", false))) {
+                    Some(Ok(mut p)) => {
+                        let _ = guarded(&mut panics, "pushed send_response", || p.send_response(simple_response(200), true).map(drop));
+                        "pushed".into()
+                    }
+                    Some(Err(e)) => format!("push_request: {}", crate::scen::err_text(&e)),
+                    None => "panic".into(),
+                }
+            }
+            SOp::ReadBody(k) => {
+                let Some(r) = self.reqs.get_mut(k) else { return "n/a".into() };
+                let Some(b) = r.body.as_mut() else { return "n/a".into() };
+                let mut got = 0;
+                loop {
+                    match guarded(&mut panics, "poll_data", || b.poll_data(&mut cx)) {
+                        Some(Poll::Ready(Some(Ok(d)))) => {
+                            got += d.len();
+                            r.snap.received.extend_from_slice(&d);
+                            let _ = guarded(&mut panics, "release_capacity", || b.flow_control().release_capacity(d.len()));
+                        }
+                        Some(Poll::Ready(Some(Err(e)))) => {
+                            r.snap.recv_done = Some(format!("err {}", crate::scen::err_text(&e)));
+                            break;
+                        }
+                        Some(Poll::Ready(None)) => {
+                            r.snap.recv_done = Some("end".into());
+                            break;
+                        }
+                        _ => break,
+                    }
+                }
+                format!("read {}", got)
+            }
+            SOp::DropBody(k) => {
+                let Some(r) = self.reqs.get_mut(k) else { return "n/a".into() };
+                safe_drop(&mut panics, "RecvStream", r.body.take());
+                r.snap.has_body = false;
+                "dropped".into()
+            }
+            SOp::DropRespond(k) => {
+                let Some(r) = self.reqs.get_mut(k) else { return "n/a".into() };
+                safe_drop(&mut panics, "SendResponse", r.respond.take());
+                r.snap.has_respond = false;
+                "dropped".into()
+            }
+            SOp::DropSend(k) => {
+                let Some(r) = self.reqs.get_mut(k) else { return "n/a".into() };
+                safe_drop(&mut panics, "SendStream", r.send.take());
+                r.snap.has_send = false;
+                "dropped".into()
+            }
+            SOp::Quit => {
+                for r in self.reqs.iter_mut() {
+                    safe_drop(&mut panics, "SendResponse", r.respond.take());
+                    safe_drop(&mut panics, "SendStream", r.send.take());
+                    safe_drop(&mut panics, "RecvStream", r.body.take());
+                }
+                "quit".into()
+            }
+        };
+        self.panics.extend(panics);
+        out
+    }
+}
+
+pub struct SHelperClient {
+    tx: Sender<SMsg>,
+    rx: Receiver<SSnap>,
+    pub snap: SSnap,
+    pub dead: Option<String>,
+    pub ops: u64,
+}
+
+impl SHelperClient {
+    pub fn spawn() -> SHelperClient {
+        let (tx, rx_op) = channel::<SMsg>();
+        let (tx_res, rx) = channel::<SSnap>();
+        std::thread::Builder::new()
+            .name("c20-server-handles".into())
+            .stack_size(512 * 1024)
+            .spawn(move || {
+                let mut h = SHelper { reqs: vec![], seq: 1, panics: vec![], flag: Flag::new(false) };
+                while let Ok(msg) = rx_op.recv() {
+                    let (last, quit) = match msg {
+                        SMsg::Adopt(sid, respond, body) => {
+                            let snap = SReqSnap { sid, has_respond: respond.is_some(), has_body: body.is_some(), ..Default::default() };
+                            h.reqs.push(SHReq { respond, send: None, body, snap });
+                            ("adopted".to_string(), false)
+                        }
+                        SMsg::Do(op) => {
+                            let last = match catch_unwind(AssertUnwindSafe(|| h.exec(&op))) {
+                                Ok(s) => s,
+                                Err(p) => {
+                                    h.panics.push(format!("{:?}: {}", op, crate::c11::panic_text(&p)));
+                                    "panic".into()
+                                }
+                            };
+                            (last, op == SOp::Quit)
+                        }
+                    };
+                    if tx_res.send(h.snap(last)).is_err() || quit {
+                        break;
+                    }
+                }
+                std::mem::forget(h);
+            })
+            .expect("cannot spawn helper thread");
+        SHelperClient { tx, rx, snap: SSnap::default(), dead: None, ops: 0 }
+    }
+    fn roundtrip(&mut self, msg: SMsg, what: String) -> bool {
+        if self.dead.is_some() {
+            return false;
+        }
+        if self.tx.send(msg).is_err() {
+            self.dead = Some(format!("helper thread gone before {}", what));
+            return false;
+        }
+        match self.rx.recv_timeout(Duration::from_millis(DEADLOCK_TIMEOUT_MS.load(Ordering::Relaxed))) {
+            Ok(s) => {
+                self.snap = s;
+                true
+            }
+            Err(_) => {
+                let n = DEADLOCKS.fetch_add(1, Ordering::SeqCst) + 1;
+                if n >= 3 {
+                    DEADLOCK_TIMEOUT_MS.store(400, Ordering::Relaxed);
+                }
+                self.dead = Some(format!("{} did not return within {} ms: blocked on one of the library's locks", what, DEADLOCK_TIMEOUT_MS.load(Ordering::Relaxed)));
+                false
+            }
+        }
+    }
+    pub fn call(&mut self, op: SOp) -> bool {
+        self.ops += 1;
+        let what = format!("{:?}", op);
+        self.roundtrip(SMsg::Do(op), what)
+    }
+    pub fn adopt(&mut self, sid: u32, respond: Option<h2::server::SendResponse<Bytes>>, body: Option<RecvStream>) -> bool {
+        self.roundtrip(SMsg::Adopt(sid, respond, body), format!("adopt {}", sid))
+    }
+}
+
+pub fn sop_enabled(s: &SSnap, op: &SOp) -> bool {
+    let r = |k: &usize| s.reqs.get(*k);
+    match op {
+        SOp::Respond(k, _) => r(k).map(|r| r.has_respond && !r.reset).unwrap_or(false),
+        SOp::SendData(k, _, _) => r(k).map(|r| r.has_send && !r.eos && !r.reset && r.accepted.len() < 6000).unwrap_or(false),
+        SOp::SendReset(k) => r(k).map(|r| (r.has_send || r.has_respond) && !r.reset).unwrap_or(false),
+        SOp::Push(k) => r(k).map(|r| r.has_respond && !r.reset && r.pushes < 1).unwrap_or(false),
+        SOp::ReadBody(k) => r(k).map(|r| r.has_body && r.recv_done.is_none()).unwrap_or(false),
+        SOp::DropBody(k) => r(k).map(|r| r.has_body).unwrap_or(false),
+        SOp::DropRespond(k) => r(k).map(|r| r.has_respond).unwrap_or(false),
+        SOp::DropSend(k) => r(k).map(|r| r.has_send).unwrap_or(false),
+        SOp::Quit => false,
+    }
+}
+
+#[derive(Clone, Debug)]
+pub enum SEv2 {
+    App(SOp),
+    PeerOpen,
+    PeerData(usize, bool),
+    PeerRst(usize),
+    PeerWuStream(usize, u32),
+    Drive,
+    DriveBudget(usize),
+}
+
+pub struct SWorld2 {
+    pub helper: Arc<Mutex<SHelperClient>>,
+    pub armed: Arc<AtomicBool>,
+    pub injected: Arc<Mutex<Vec<String>>>,
+    pub acct: FlowAcct,
+    pub life: Lifecycle,
+    pub opened: Vec<u32>,
+    pub peer_sent: Vec<Vec<u8>>,
+    pub peer_seq: u8,
+    pub peer_ended: Vec<bool>,
+    pub peer_rst: Vec<bool>,
+    pub adopted: usize,
+}
+
+/// Real server; the peer opens up to two request streams (window 3000 for the responses); every accepted stream's handles
+/// are moved to the second thread as soon as the connection has handed them out, and every operation on them runs there -
+/// between polls or, once per Drive, inside the connection's poll at a transport callback.
+pub struct ServerThreadModel {
+    pub events: Vec<SEv2>,
+    pub inject_menu: Vec<SOp>,
+    pub name: &'static str,
+    pub max_injections: usize,
+}
+
+impl ServerThreadModel {
+    pub fn new(name: &'static str, quick: bool) -> ServerThreadModel {
+        let mut ev = vec![SEv2::PeerOpen];
+        let mut menu = vec![];
+        for k in 0..2 {
+            for op in [SOp::Respond(k, false), SOp::Respond(k, true), SOp::SendData(k, 1800, false), SOp::SendData(k, 5, true), SOp::SendReset(k), SOp::ReadBody(k)] {
+                ev.push(SEv2::App(op.clone()));
+                menu.push(op);
+            }
+            if k == 0 {
+                ev.push(SEv2::App(SOp::Push(k)));
+                menu.push(SOp::Push(k));
+            }
+            for op in [SOp::DropBody(k), SOp::DropRespond(k), SOp::DropSend(k)] {
+                if !quick {
+                    ev.push(SEv2::App(op.clone()));
+                }
+                menu.push(op);
+            }
+            ev.push(SEv2::PeerData(k, false));
+            ev.push(SEv2::PeerData(k, true));
+            ev.push(SEv2::PeerWuStream(k, 4000));
+            if !quick {
+                ev.push(SEv2::PeerRst(k));
+            }
+        }
+        ev.push(SEv2::Drive);
+        ev.push(SEv2::DriveBudget(1500));
+        ServerThreadModel { events: ev, inject_menu: menu, name, max_injections: 2 }
+    }
+    /// handles the connection has handed out since the last look go to the second thread
+    fn adopt_new(&self, t: &mut T2, w: &mut SWorld2) {
+        while w.adopted < t.accepted.len() {
+            let a = &mut t.accepted[w.adopted];
+            let (sid, respond, body) = (a.sid, a.respond.take(), a.body.take());
+            w.helper.lock().unwrap().adopt(sid, respond, body);
+            w.adopted += 1;
+        }
+    }
+}
+
+impl Model for ServerThreadModel {
+    type World = SWorld2;
+    fn name(&self) -> &'static str {
+        self.name
+    }
+    fn cfg(&self) -> T2Cfg {
+        T2Cfg { role: Side::Server, peer_settings: vec![(wf::setting::INITIAL_WINDOW_SIZE, 3000)], client: None, server: Some(h2::server::Builder::new()), policy: IoPolicy::default() }
+    }
+    fn init(&self, t: &mut T2) -> SWorld2 {
+        let helper = Arc::new(Mutex::new(SHelperClient::spawn()));
+        let armed = Arc::new(AtomicBool::new(false));
+        let injected = Arc::new(Mutex::new(vec![]));
+        {
+            let weak = Arc::downgrade(&t.sh);
+            let helper = helper.clone();
+            let armed = armed.clone();
+            let injected = injected.clone();
+            let menu = self.inject_menu.clone();
+            let hook: Arc<dyn Fn(&'static str) + Send + Sync> = Arc::new(move |kind| {
+                if !armed.load(Ordering::SeqCst) || DEADLOCKS.load(Ordering::SeqCst) >= 10 {
+                    return;
+                }
+                let Some(sh) = weak.upgrade() else { return };
+                let mut h = helper.lock().unwrap();
+                if h.dead.is_some() {
+                    return;
+                }
+                let enabled: Vec<&SOp> = menu.iter().filter(|o| sop_enabled(&h.snap, o)).collect();
+                if enabled.is_empty() {
+                    return;
+                }
+                let c = sh.lock().unwrap().chooser.choose(tag::APP, 1 + enabled.len(), true);
+                if c == 0 {
+                    return;
+                }
+                armed.store(false, Ordering::SeqCst);
+                let op = enabled[c - 1].clone();
+                let returned = h.call(op.clone());
+                injected.lock().unwrap().push(format!("{:?} during {} -> {}", op, kind, if returned { h.snap.last.clone() } else { "never returned".to_string() }));
+            });
+            let mut s = t.sh.lock().unwrap();
+            s.hook = Some(hook);
+            s.hook_side = Side::Server;
+        }
+        t.drive(50);
+        SWorld2 { helper, armed, injected, acct: FlowAcct::new(Side::Server), life: Lifecycle::new(Side::Server), opened: vec![], peer_sent: vec![vec![]; 2], peer_seq: 101, peer_ended: vec![false; 2], peer_rst: vec![false; 2], adopted: 0 }
+    }
+    fn n_events(&self) -> usize {
+        self.events.len()
+    }
+    fn event_name(&self, e: usize) -> String {
+        format!("{:?}", self.events[e])
+    }
+    fn enabled(&self, t: &T2, w: &SWorld2, e: usize) -> bool {
+        let h = w.helper.lock().unwrap();
+        if h.dead.is_some() || !t.conn_alive() {
+            return false;
+        }
+        let pv = crate::c03::peer_view(t);
+        match &self.events[e] {
+            SEv2::App(op) => sop_enabled(&h.snap, op),
+            SEv2::PeerOpen => w.opened.len() < 2,
+            SEv2::PeerData(k, _) => w.opened.get(*k).map(|&sid| !w.peer_ended[*k] && !w.peer_rst[*k] && w.peer_sent[*k].len() < 400 && pv.vs(sid) >= 100 && pv.v0() >= 100).unwrap_or(false),
+            SEv2::PeerRst(k) => w.opened.get(*k).is_some() && !w.peer_rst[*k],
+            SEv2::PeerWuStream(k, _) => w.opened.get(*k).is_some() && !w.peer_rst[*k] && h.snap.reqs.get(*k).map(|r| !r.accepted.is_empty()).unwrap_or(false),
+            SEv2::Drive | SEv2::DriveBudget(_) => true,
+        }
+    }
+    fn apply(&self, t: &mut T2, w: &mut SWorld2, e: usize) {
+        match self.events[e].clone() {
+            SEv2::App(op) => {
+                w.helper.lock().unwrap().call(op);
+                t.events += 1;
+            }
+            SEv2::PeerOpen => {
+                let sid = 1 + 2 * w.opened.len() as u32;
+                t.peer_request(sid, "/t", false);
+                w.opened.push(sid);
+            }
+            SEv2::PeerData(k, eos) => {
+                let b = vec![w.peer_seq; 100];
+                w.peer_seq += 1;
+                t.peer_send(&wf::data(w.opened[k], &b, eos));
+                w.peer_sent[k].extend_from_slice(&b);
+                w.peer_ended[k] |= eos;
+            }
+            SEv2::PeerRst(k) => {
+                t.peer_send(&wf::rst_stream(w.opened[k], 8));
+                w.peer_rst[k] = true;
+            }
+            SEv2::PeerWuStream(k, n) => {
+                t.peer_send(&wf::window_update(w.opened[k], n));
+                t.peer_send(&wf::window_update(0, n));
+            }
+            SEv2::Drive => {
+                let n = w.injected.lock().unwrap().len();
+                w.armed.store(n < self.max_injections, Ordering::SeqCst);
+                t.drive(200);
+                w.armed.store(false, Ordering::SeqCst);
+            }
+            SEv2::DriveBudget(b) => {
+                let n = w.injected.lock().unwrap().len();
+                w.armed.store(n < self.max_injections, Ordering::SeqCst);
+                t.sh.lock().unwrap().set_write_budget(t.role, Some(b));
+                t.drive(200);
+                t.sh.lock().unwrap().set_write_budget(t.role, None);
+                w.armed.store(false, Ordering::SeqCst);
+            }
+        }
+        t.catch_up();
+        self.adopt_new(t, w);
+    }
+    fn invariant(&self, t: &mut T2, w: &mut SWorld2) -> V3 {
+        let mut v = vec![];
+        t.catch_up();
+        let (snap, dead) = {
+            let h = w.helper.lock().unwrap();
+            (h.snap.clone(), h.dead.clone())
+        };
+        let inj = w.injected.lock().unwrap().clone();
+        let ctx = if inj.is_empty() { String::new() } else { format!(" (operations on the second thread inside the connection's poll: {:?})", inj) };
+        if let Some(d) = dead {
+            v.push(("C20.deadlock".to_string(), d.split(' ').next().unwrap_or("").chars().filter(|c| c.is_alphabetic()).collect(), format!("{}{}", d, ctx)));
+        }
+        for p in &snap.panics {
+            if !t.panics.contains(p) {
+                t.panics.push(p.clone());
+            }
+        }
+        w.acct.update(&t.mon);
+        for x in w.acct.violations.drain(..) {
+            v.push(("C20.flow-control".into(), x.chars().filter(|c| !c.is_ascii_digit()).take(60).collect(), format!("{}{}", x, ctx)));
+        }
+        w.life.update(&t.mon);
+        for x in w.life.violations.drain(..) {
+            v.push(("C20.stream-lifecycle".into(), x.chars().filter(|c| !c.is_ascii_digit()).take(60).collect(), format!("{}{}", x, ctx)));
+        }
+        for (k, r) in snap.reqs.iter().enumerate() {
+            let wire = wire_data(t, r.sid, true);
+            if wire.len() > r.accepted.len() || wire[..] != r.accepted[..wire.len()] {
+                v.push(("C20.sent-data-not-sequential".into(), if wire.len() > r.accepted.len() { "more-than-accepted".into() } else { "order".into() }, format!("stream {}: {} octets of DATA are on the wire, send_data accepted {}{}", r.sid, wire.len(), r.accepted.len(), ctx)));
+            }
+            let idx = w.opened.iter().position(|&s| s == r.sid).unwrap_or(k).min(1);
+            let sent = &w.peer_sent[idx];
+            if r.received.len() > sent.len() || r.received[..] != sent[..r.received.len()] {
+                v.push(("C20.received-data-not-sequential".into(), "order".into(), format!("stream {}: the application read {} octets that are not a prefix of the {} octets the peer sent{}", r.sid, r.received.len(), sent.len(), ctx)));
+            }
+            if r.recv_done.as_deref() == Some("end") && r.received.len() != sent.len() && !w.peer_rst[idx] {
+                v.push(("C20.received-data-not-sequential".into(), "short".into(), format!("stream {}: clean end of body after {} of {} octets{}", r.sid, r.received.len(), sent.len(), ctx)));
+            }
+        }
+        let pv = crate::c03::peer_view(t);
+        if pv.v0() > 65535 {
+            v.push(("C20.receive-window-over-credited".into(), "connection".into(), format!("the peer sees a connection window of {}{}", pv.v0(), ctx)));
+        }
+        v
+    }
+    fn epilogue(&self, t: &mut T2, w: &mut SWorld2) -> V3 {
+        let mut v = vec![];
+        if !t.conn_alive() || w.helper.lock().unwrap().dead.is_some() || t.goaway_sent().is_some() {
+            return v;
+        }
+        w.armed.store(false, Ordering::SeqCst);
+        t.drive(200);
+        self.adopt_new(t, w);
+        // windows wide open; the application answers and ends what it still can
+        t.peer_send(&wf::window_update(0, 1 << 20));
+        for (k, &sid) in w.opened.clone().iter().enumerate() {
+            if !w.peer_rst[k] {
+                t.peer_send(&wf::window_update(sid, 1 << 20));
+            }
+        }
+        t.drive(300);
+        let snap = w.helper.lock().unwrap().snap.clone();
+        for (k, r) in snap.reqs.iter().enumerate() {
+            if r.reset {
+                continue;
+            }
+            if r.has_respond {
+                w.helper.lock().unwrap().call(SOp::Respond(k, true));
+            } else if r.has_send && !r.eos {
+                w.helper.lock().unwrap().call(SOp::SendData(k, 5, true));
+            }
+        }
+        t.drive(300);
+        t.catch_up();
+        v.extend(self.invariant(t, w));
+        if !t.panics.is_empty() || !t.conn_alive() || t.goaway_sent().is_some() {
+            return v;
+        }
+        let inj = w.injected.lock().unwrap().clone();
+        let ctx = if inj.is_empty() { String::new() } else { format!(" (operations on the second thread inside the connection's poll: {:?})", inj) };
+        let snap = w.helper.lock().unwrap().snap.clone();
+        for r in snap.reqs.iter() {
+            let idx = w.opened.iter().position(|&s| s == r.sid).unwrap_or(0).min(1);
+            if r.reset || w.peer_rst[idx] || !t.rst_sent(r.sid).is_empty() || (!r.has_send && !r.eos) {
+                continue;
+            }
+            let wire = wire_data(t, r.sid, true);
+            if wire.len() != r.accepted.len() {
+                v.push(("C20.sent-data-lost".into(), "short".into(), format!("stream {}: windows are wide open and everything is quiescent, yet only {} of the {} octets send_data accepted are on the wire{}", r.sid, wire.len(), r.accepted.len(), ctx)));
+            } else if r.eos && !wire_eos(t, r.sid) {
+                v.push(("C20.sent-data-lost".into(), "end-stream".into(), format!("stream {}: END_STREAM was submitted but never written{}", r.sid, ctx)));
+            }
+        }
+        let all_finished = snap.reqs.iter().all(|r| r.eos || r.reset || (!r.has_send && !r.has_respond));
+        if all_finished {
+            if let Conn::Server(c) = &t.conn {
+                let s = c.verif_snapshot();
+                if s.send_buffered > 0 {
+                    v.push(("C20.send-buffer-leak".into(), "frames".into(), format!("every stream has ended or was reset, windows are wide open, the connection is quiescent: {} frames are still held in the send buffer{}", s.send_buffered, ctx)));
+                }
+            }
+        }
+        v
+    }
+    fn digest_extra(&self, t: &T2, w: &SWorld2) -> String {
+        let h = w.helper.lock().unwrap();
+        let mut out = format!("inj={} opened={:?}", w.injected.lock().unwrap().len(), w.opened);
+        for (k, r) in h.snap.reqs.iter().enumerate() {
+            out.push_str(&format!("|{}:resp={} send={} body={} acc={} eos={} reset={} recv={} done={:?} pushes={} wire={} peer={}/{}/{}", r.sid, r.has_respond, r.has_send, r.has_body, r.accepted.len(), r.eos, r.reset, r.received.len(), r.recv_done, r.pushes, wire_data(t, r.sid, true).len(), w.peer_sent[k.min(1)].len(), w.peer_ended[k.min(1)], w.peer_rst[k.min(1)]));
+        }
+        out
+    }
+    fn teardown(&self, mut t: T2, w: SWorld2) -> Vec<String> {
+        t.sh.lock().unwrap().hook = None;
+        let mut panics = std::mem::take(&mut t.panics);
+        {
+            let mut h = w.helper.lock().unwrap();
+            if h.dead.is_none() {
+                h.call(SOp::Quit);
+                for p in &h.snap.panics {
+                    if !panics.contains(p) {
+                        panics.push(p.clone());
+                    }
+                }
+            } else {
+                std::mem::forget(std::mem::replace(&mut t.conn, Conn::Gone));
+            }
+        }
+        t.panics = panics;
+        t.finish()
+    }
+    fn counters(&self, _t: &T2, w: &SWorld2) -> Vec<(&'static str, u64)> {
+        let inj = w.injected.lock().unwrap();
+        vec![
+            ("operations_on_second_thread", w.helper.lock().unwrap().ops),
+            ("operations_inside_connection_poll", inj.len() as u64),
+            ("server_handles_moved_to_second_thread", w.adopted as u64),
+        ]
+    }
+}
+
 /// runs the loom models over the real ping_pong.rs in a child process each (a failing loom model panics, possibly twice)
 /// loom over the real ping_pong.rs. `prop` "C07" runs the models about the end of the connection ("end-*"), "C20" all of them.
 pub fn run_pingloom(out: &mut Outcome, quick: bool, prop: &str) -> Vec<Violation> {
@@ -1122,7 +1725,9 @@ pub fn run(ctx: &Ctx) -> Outcome {
     let m4 = IdleModel::new("threads-idle-mid", true);
     let rep3 = search(ctx, &m3, "C20", if quick { 7 } else { 12 }, ctx.tier.budget_s() * 1.05, true);
     let rep4 = search(ctx, &m4, "C20", if quick { 6 } else { 12 }, ctx.tier.budget_s() * 1.2, true);
-    fill_outcome(&mut out, &[(m.name, &rep), (m2.name, &rep2), (m3.name, &rep3), (m4.name, &rep4)]);
+    let m5 = ServerThreadModel::new(if quick { "threads-server-q" } else { "threads-server-t" }, quick);
+    let rep5 = search(ctx, &m5, "C20", if quick { 6 } else { 10 }, ctx.tier.budget_s() * 1.4, true);
+    fill_outcome(&mut out, &[(m.name, &rep), (m2.name, &rep2), (m3.name, &rep3), (m4.name, &rep4), (m5.name, &rep5)]);
     out.set("exhaustive", json!(false));
     out.set("alphabet", json!({"events": m.events.iter().map(|e| format!("{:?}", e)).collect::<Vec<_>>(), "operations_injected_inside_poll": m.inject_menu.iter().map(|e| format!("{:?}", e)).collect::<Vec<_>>()}));
     out.set("rule", json!("X4 = explicit-state search (X2) on T2 with a second OS thread: the real client's SendRequest, SendStream, ResponseFuture, RecvStream (with its flow-control handle) and PingPong handles live on a helper thread and every operation on them runs there while the connection is polled on the main thread; a baton makes the interleaving a choice. Besides operations between polls, during every Drive event one operation of the menu may run at any transport callback (write / flush / read) inside Connection::poll - the points where the connection task has dropped its internal locks around I/O, including the window between staging a DATA frame and reclaiming its unwritten rest after a partial write (DriveBudget). At most 2 such injections per execution. Invariants in every state: no panic, no operation blocked on a library lock (4 s watchdog = deadlock), DATA on the wire is a prefix of what send_data accepted in call order, what the application reads is a prefix of what the peer sent, flow-control (C02 accountant) and stream life-cycle (C04 automaton) monitors on the wire, receive windows never over-credited. Epilogue from every new state: windows opened wide, streams finished, quiescence: every accepted octet and END_STREAM is on the wire, an outstanding user ping completes. Plus loom over the real ping_pong.rs (see harness pingloom)"));
@@ -1132,6 +1737,7 @@ pub fn run(ctx: &Ctx) -> Outcome {
     vs.merge(rep2.agg.vios);
     vs.merge(rep3.agg.vios);
     vs.merge(rep4.agg.vios);
+    vs.merge(rep5.agg.vios);
     for v in run_pingloom(&mut out, quick, "C20") {
         vs.add(v);
     }
@@ -1148,6 +1754,12 @@ pub fn replay(v: &serde_json::Value) -> Option<bool> {
         let m = v["model"].as_str().unwrap_or("");
         let st = std::process::Command::new("/verif/pingloom/target/release/pingloom").args(["run", m]).status().ok()?;
         return Some(!st.success());
+    }
+    for quick in [true, false] {
+        let n: &'static str = if quick { "threads-server-q" } else { "threads-server-t" };
+        if h == format!("x2.{}", n) {
+            return Some(replay_model(&ServerThreadModel::new(n, quick), "C20", v));
+        }
     }
     if h == "x2.threads-idle" {
         return Some(replay_model(&IdleModel::new("threads-idle", false), "C20", v));
